@@ -3,6 +3,7 @@ from rules import io as r_io
 from rules import hdr_tolerant as r_hdrt
 from rules import wr_frame as r_wrf
 from rules import si as r_si
+from rules import hdr_num as r_num
 
 PROPS = {}
 
@@ -137,3 +138,23 @@ prop("C17",
      technique="attribute census vs. reduce/state coverage with provenance of each constructor argument",
      level_text="Static completeness of the copied state on the analysed source; equality of copies on concrete "
                 "objects is not executed.")
+
+prop("C08",
+     [r_num.rule_numlit, r_num.rule_finite_default, r_num.rule_exempt, r_num.rule_curve_raw],
+     "Guard-language analysis: every text->number constructor in SectionParser.num (int/float/np.int64/np.float64 on "
+     "the argument) is reachable, from the entry or from any later re-definition of the value, only across the edge of "
+     "a test on which `<regex>.fullmatch(value)` succeeded (truth table of the test over match/is-str atoms; CFG with "
+     "exception edges), the recogniser is applied to the very value converted, and its language G - folded from the "
+     "module constant, flags included - satisfies L(CORE) <= L(G) <= L(REF) by DFA product over a probe alphabet that "
+     "contains underscores, blanks and non-ASCII digits (HDR.NUMLIT). Integer conversion is tried first, a float is "
+     "returned only under isfinite, otherwise the text before comma substitution or the caller's default (HDR.FINITE). "
+     "The API/UWI exemption in metadata() is decided by folding the controlling tests over 15 probe names incl. mixed "
+     "case and near misses (HDR.EXEMPT). curves() cannot reach num(), params() converts keys['value'] unconditionally "
+     "without going through metadata(), metadata() converts only the value field (HDR.CURVE-RAW). Not decided: numeric "
+     "equality of the converted value and the 64-bit boundary (trusted to numpy).",
+     COMMON_ASSUMPTIONS + ["re._parser is the definition of the regex dialect; languages are decided over the probe "
+                           "alphabet of sa/rx.py", "np.int64/np.float64 convert every CORE literal correctly"],
+     "DESIGN.md section 4, C08",
+     technique="regex-language inclusion by DFA product + guard dominance on the CFG + truth-table folding of the exemption",
+     level_text="Static guarantee for all strings over the probe alphabet that only decimal literals can reach a number "
+                "constructor, and for all listed name spellings that API/UWI are exempt; numeric equality is trusted to numpy.")
